@@ -1,5 +1,6 @@
 import Whv.Driver.Util
 import Whv.Model.Crash
+import Std.Data.HashMap
 /-!
 Driver family `crash` (C16).  Lines of one store directory share the case id.
 
@@ -8,7 +9,9 @@ Driver family `crash` (C16).  Lines of one store directory share the case id.
   "ack" line was received) or possibly in flight when the SIGKILL hit (`ack=0`).
 * `cyc <cid> cycle=<n> …` — bookkeeping of one kill (counted, not judged).
 * `open <cid> cycle=<n> who=store|verify res=ok|err [how=kill|clean] [msg=…]` — did `db.Open` on the directory succeed after the kill.
-* `rec <cid> cycle=<n> key=<n> res=ok|notfound|err [val=<hex>]` — `GetSignedVAABytes` after the reopen, for every identifier ever attempted.
+* `rec <cid> cycle=<n> key=<n> res=ok|notfound|err [val=<hex> | same=<i>]` — `GetSignedVAABytes` after the reopen, for every identifier
+  of the universe. For answers above 2 KB the harness may write `same=<i>`: "byte-identical to the value of attempt `i`" (it compared
+  them); the driver substitutes the bytes of that `att` line, so the judgement is still made on bytes.
 
 Every `rec` is judged with `Whv.Crash.acceptKey` against the attempts seen so far (proved in `Whv.C16`: accepts every behaviour of the
 contract model, and acceptance means acked ⇒ found with bytes not older than the newest acknowledged store, found ⇒ bytes stored under that id).
@@ -17,7 +20,8 @@ namespace Whv.Driver.CrashFam
 open Whv Whv.Driver Whv.Crash
 
 structure St where
-  atts : List Entry := []     -- newest first
+  atts : Std.HashMap Nat (List Entry) := {}   -- per key, newest first (`Whv.C16.acceptKey_filter`: judging on the per-key list is the same)
+  big : Std.HashMap Nat Bytes := {}           -- attempt index -> value, for values that may be back-referenced
   n : Nat := 0
   cycles : Nat := 0
   midStream : Nat := 0
@@ -34,11 +38,13 @@ def newestFor (atts : List Entry) (k : Nat) : Option Entry := atts.find? (·.key
 def step (st : St) (line : String) : St × List String :=
   let fs := fields line
   match fs with
-  | ["begin", _] => ({ st with atts := [] }, [])
+  | ["begin", _] => ({ st with atts := {}, big := {} }, [])
   | "att" :: cid :: rest =>
-    match kvNat rest "key", kvNat rest "ack", kvHex rest "val" with
-    | some k, some a, some v => ({ st with atts := ⟨k, v, a = 1⟩ :: st.atts, ackedTotal := st.ackedTotal + a }, [])
-    | _, _, _ => (st, [s!"diff {cid} unparsable att line"])
+    match kvNat rest "key", kvNat rest "ack", kvHex rest "val", kvNat rest "i" with
+    | some k, some a, some v, some i =>
+      let big := if v.length > 2048 then st.big.insert i v else st.big
+      ({ st with atts := st.atts.insert k (⟨k, v, a = 1⟩ :: st.atts.getD k []), big := big, ackedTotal := st.ackedTotal + a }, [])
+    | _, _, _, _ => (st, [s!"diff {cid} unparsable att line"])
   | "cyc" :: _ :: rest =>
     let mid := (kv rest "idle") = some "false"
     ({ st with cycles := st.cycles + 1, midStream := st.midStream + (if mid then 1 else 0) }, [])
@@ -55,20 +61,26 @@ def step (st : St) (line : String) : St × List String :=
       let st := { st with n := st.n + 1, recs := st.recs + 1 }
       let cyc := (kv rest "cycle").getD "?"
       if res = "ok" || res = "notfound" then
-        let r : Option Bytes := if res = "ok" then kvHex rest "val" else none
+        let r : Option Bytes :=
+          if res = "ok" then
+            match kvNat rest "same" with
+            | some i => st.big.get? i
+            | none => kvHex rest "val"
+          else none
+        let atts := st.atts.getD k []
         if res = "ok" && r.isNone then (st, [s!"diff {cid} unparsable rec value"])
-        else if acceptKey st.atts k r then
-          let hasAck := st.atts.any fun a => a.key = k && a.acked
+        else if acceptKey atts k r then
+          let hasAck := atts.any fun a => a.key = k && a.acked
           let st := { st with recsAckedKey := st.recsAckedKey + (if hasAck then 1 else 0) }
           -- how did the in-flight store (newest attempt of this key, un-acknowledged) fare?
-          let st := match newestFor st.atts k with
+          let st := match newestFor atts k with
             | some e => if e.acked then st else if r = some e.val then { st with inflightSurvived := st.inflightSurvived + 1 } else { st with inflightLost := st.inflightLost + 1 }
             | none => st
           (st, [s!"ok {cid}"])
         else
-          let nAtt := (st.atts.filter (·.key = k)).length
-          let nAck := (st.atts.filter fun a => a.key = k && a.acked).length
-          (st, [s!"spec {cid} {rejectReason st.atts k r} cycle {cyc} key {k}: {nAtt} stores attempted, {nAck} acknowledged, lookup after reopen {if res = "ok" then s!"returned {(r.getD []).length} bytes" else "says not found"}"])
+          let nAtt := (atts.filter (·.key = k)).length
+          let nAck := (atts.filter fun a => a.key = k && a.acked).length
+          (st, [s!"spec {cid} {rejectReason atts k r} cycle {cyc} key {k}: {nAtt} stores attempted, {nAck} acknowledged, lookup after reopen {if res = "ok" then s!"returned {(r.getD []).length} bytes" else "says not found"}"])
       else (st, [s!"spec {cid} lookup-error cycle {cyc} key {k}: lookup after reopen ended with {res}"])
     | _, _ => (st, [s!"diff {cid} unparsable rec line"])
   | [] => (st, [])
